@@ -689,7 +689,11 @@ func (fr *Frame) checkLockInv(st *State, li *LockInv, ref *Term, n ast.Node) {
 			name = fmt.Sprintf("%d", i+1)
 		}
 		g := fr.evalSpecBoolPkg(st, c.Expr, b, nil, li.PkgPath)
-		fr.e.oblige(fr, st, "lockinv."+name, "", fr.site("unlock", n), g, n, c, "")
+		detail := ""
+		if st.retOrd > 0 && fr.top.deferredUnlock {
+			detail = fmt.Sprintf("ret#%d", st.retOrd) // deferred Unlock: one obligation key per return statement
+		}
+		fr.e.oblige(fr, st, "lockinv."+name, detail, fr.site("unlock", n), g, n, c, "")
 	}
 }
 
